@@ -42,7 +42,7 @@ pub fn run(o: &Opts) {
       let dir = fresh_dir(&o.out, &format!("e_{lang}_{round}"));
       let srcs = corpus::clean_sources(lang, &mut rng, 1, 500);
       let Some(src) = srcs.first().cloned() else { continue };
-      let src = if round % 4 == 3 && matches!(lang, SupportLang::TypeScript | SupportLang::JavaScript) { format!("{src}\nvar o = {{ b: 123, c: 4, }};\n") } else { src };
+      let src = if round % 4 == 3 && matches!(lang, SupportLang::TypeScript | SupportLang::JavaScript) { format!("{src}\nvar o = {{ b: 123, c: 4, }};\nvar cafééé日本 = {{ b: 123, \"ü\": 4, c: 5, }};\n") } else { src };
       let g = corpus::parse(lang, &src);
       let nodes = corpus::all_nodes(g.root());
       let ing = harvest(lang, &nodes, &mut rng);
